@@ -566,6 +566,29 @@ pub fn media(c_chunk: u32, s_chunk: u32, cap: u32) -> BoxedStrategy<Media> {
     .boxed()
 }
 
+/// A media script: independent items, or a regular cadence (one kind, constant length, constant
+/// timestamp step incl. steps at the extended-timestamp threshold and "backwards" steps) — the
+/// shape real encoders produce and the one that makes header formats 2 and 3 frequent.
+pub fn media_script(c_chunk: u32, s_chunk: u32, cap: u32, max: usize) -> BoxedStrategy<Vec<Media>> {
+    let regular = (
+        any::<bool>(),
+        prop_oneof![1 => Just(0u32), 3 => 1u32..20, 3 => 1u32..600, 1 => (0u32..3, -1i64..2).prop_map(move |(m, o)| ((m as u64 * c_chunk.min(s_chunk) as u64).min(cap as u64) as i64 + o).clamp(0, cap as i64) as u32)],
+        gen::edge_u32(),
+        prop_oneof![3 => gen::pick(&[0u32, 20, 40, 0xFF_FFFE, 0xFF_FFFF, 0x100_0000, 0x100_0001, 0xFFFF_FC18, 0x8000_0000]), 1 => gen::edge_u32()],
+        any::<bool>(),
+        1usize..max.max(2),
+    )
+        .prop_map(|(audio, len, t0, step, drop, n)| {
+            (0..n)
+                .map(|i| {
+                    let ts = t0.wrapping_add(step.wrapping_mul(i as u32));
+                    if audio { Media::Audio { len, ts, drop, fill: i as u32 } } else { Media::Video { len, ts, drop, fill: i as u32 } }
+                })
+                .collect::<Vec<_>>()
+        });
+    prop_oneof![3 => proptest::collection::vec(media(c_chunk, s_chunk, cap), 0..max), 2 => regular].boxed()
+}
+
 pub fn scenario(thorough: bool) -> BoxedStrategy<Scenario> {
     let chunk = || prop_oneof![3 => gen::pick(&[1u32, 2, 3, 7, 127, 128, 129, 4096, 65536, 0x7FFF_FFFF, 0x7FFF_FFFE]), 3 => 1u32..400, 1 => 1u32..0x8000_0000];
     let window = || prop_oneof![3 => gen::pick(&[1u32, 2, 33, 50, 128, 2_500_000, 0xFFFF_FFFF, 0]), 2 => 1u32..2000, 1 => any::<u32>()];
@@ -577,11 +600,11 @@ pub fn scenario(thorough: bool) -> BoxedStrategy<Scenario> {
                 (Just(c_chunk), Just(s_chunk), Just(c_window), Just(s_window)),
                 (any::<bool>(), "[a-z]{1,8}(/[a-z0-9]{1,5})?/?", "[a-zA-Z0-9_?=&-]{1,16}", 0u8..3),
                 (gen::edge_u32(), proptest::option::weighted(0.3, "rtmp://[a-z]{1,8}/[a-z]{1,5}"), gen::edge_u32(), any::<bool>()),
-                proptest::collection::vec(media(c_chunk, s_chunk, cap), 0..12),
+                media_script(c_chunk, s_chunk, cap, 12),
                 proptest::collection::vec((any::<bool>(), prop_oneof![3 => 1u16..20, 3 => 1u16..300, 1 => 300u16..5000]), 0..80),
                 prop_oneof![Just(1u16), 2u16..50, 50u16..5000],
                 (age(), age()),
-                proptest::option::weighted(0.35, (any::<bool>(), "[a-zA-Z0-9_-]{1,12}", proptest::collection::vec(media(c_chunk, s_chunk, cap.min(5000)), 0..6)).prop_map(|(publish, key, media)| Second { publish, key, media })),
+                proptest::option::weighted(0.35, (any::<bool>(), "[a-zA-Z0-9_-]{1,12}", media_script(c_chunk, s_chunk, cap.min(5000), 6)).prop_map(|(publish, key, media)| Second { publish, key, media })),
             )
         })
         .prop_map(|((c_chunk, s_chunk, c_window, s_window), (publish, app, key, publish_type), (c_buffer, tc_url, s_bandwidth, s_bwdone), media, schedule, drain, (age_c, age_s), second)| Scenario {
@@ -611,7 +634,7 @@ pub fn spec() -> PropSpec {
     PropSpec {
         id: "C02",
         level: "exploration",
-        rule: "scenarios: publish or play, application name (with/without trailing '/'), stream key, publish type, client and server configurations (chunk sizes from {1,2,3,7,127..129,4096,65536,2^31-2,2^31-1, 1..400, any}, windows from {0,1,2,33,50,128,2.5M,2^32-1, any}, bandwidth, onBWDone flag, tcUrl), a media script of 0..12 metadata/audio/video items (lengths 0, 1.., around both chunk sizes, up to 20000 quick / 70000 thorough; any u32 timestamps; droppable flags) and a delivery schedule of (direction, byte count) steps, then alternate draining with a generated piece size; sessions optionally pre-aged past 2^24 / 2^32 ms. A real ClientSession and ServerSession exchange bytes; the harness accepts every request. Non-trivial = >= 1 media item and (a delivery that cuts a queued packet, or both chunk sizes non-default, or >= 2 direction switches while media is in flight); distinct = distinct scenario",
+        rule: "scenarios: publish or play, application name (with/without trailing '/'), stream key, publish type, client and server configurations (chunk sizes from {1,2,3,7,127..129,4096,65536,2^31-2,2^31-1, 1..400, any}, windows from {0,1,2,33,50,128,2.5M,2^32-1, any}, bandwidth, onBWDone flag, tcUrl), a media script of 0..12 metadata/audio/video items, either independent or a regular cadence (one kind, constant length, constant timestamp step incl. 0xFFFFFE..0x1000001, 2^31 and backwards steps) (lengths 0, 1.., around both chunk sizes, up to 20000 quick / 70000 thorough; any u32 timestamps; droppable flags) and a delivery schedule of (direction, byte count) steps, then alternate draining with a generated piece size; sessions optionally pre-aged past 2^24 / 2^32 ms; in 35 % of scenarios a second publish or play follows on the same connection after the first was stopped. A real ClientSession and ServerSession exchange bytes; the harness accepts every request. Non-trivial = >= 1 media item and (a delivery that cuts a queued packet, or both chunk sizes non-default, or >= 2 direction switches while media is in flight); distinct = distinct scenario",
         assumptions: vec![
             "the driver queues all outbound packets of one call, in order, before reacting to that call's events (the documented ordering)",
             "one publish or play per connection; the application accepts every request; rejection paths belong to C09/C10",
